@@ -64,10 +64,12 @@ def mode(do, default):
     return f"old({P}.get('{do}_mode', '{default}'))"
 
 
-def only_written(keys):
-    """the step writes at most the given keys of the object's parameters (the back end sees the configured request)"""
-    return ("forall(STR, lambda k: implies(k not in " + repr(keys) + f", (k in {P}) == old(k in {P}) and "
-            f"implies(k in {P}, {P}[k] == old({P}[k]))))")
+def request_kept(do, but=()):
+    """the step does not rewrite the request it was given: the state, location and addressing parameters the back end
+    reads stay as configured (other bookkeeping parameters may be added freely)"""
+    keys = [k for k in (f"{do}_state", f"{do}_location", "object_name", "object_type", "states", "vms", "images", "nets")
+            if k not in but]
+    return " and ".join(f"(('{k}' in {P}) == old('{k}' in {P}) and implies('{k}' in {P}, {P}['{k}'] == old({P}['{k}'])))" for k in keys)
 
 
 ROOTS = "['root', '0root', 'boot', '0boot']"
@@ -122,7 +124,7 @@ GET_STEP = step("get", "ra", raises={}, ensures=[
                         f"ite(old({P}['get_state']) in {ROOTS}, {only('get_root', 'get')}, {only('get', 'get')}))"),
     ("normal_only_on_reuse", f"implies(flow == 'normal', not {skip('get')} and {G_REUSE})"),
     ("existence_checked_once", f"implies(not {skip('get')}, {once('exists')})"),
-    ("request_parameters_untouched", only_written(["get_mode"])),
+    ("request_parameters_untouched", request_kept("get")),
 ], exc_ensures=[
     ("abort_or_invalid_alters_nothing", f"implies(exc in ['TestAbortError', 'TestError'], {NO_CHANGE})"),
     ("abort_only_by_policy", f"implies(exc == 'TestAbortError', not {skip('get')} and {G_ABORT})"),
@@ -143,7 +145,7 @@ UNSET_STEP = step("unset", "fi", raises={}, ensures=[
     ("force_unsets_once", f"implies(not {skip('unset')} and {U_FORCE}, flow == 'normal' and "
                           f"ite(old({P}['unset_state']) in {ROOTS}, {only('unset_root', 'unset')}, {only('unset', 'unset')}))"),
     ("removal_only_if_forced", f"implies(not ({same('unset')} and {same('unset_root')}), not {skip('unset')} and {U_FORCE})"),
-    ("request_parameters_untouched", only_written(["unset_mode"])),
+    ("request_parameters_untouched", request_kept("unset")),
 ], exc_ensures=[
     ("abort_or_invalid_alters_nothing", f"implies(exc in ['TestAbortError', 'TestError'], {NO_CHANGE})"),
     ("abort_only_by_policy", f"implies(exc == 'TestAbortError', not {skip('unset')} and {U_ABORT})"),
@@ -174,7 +176,7 @@ SET_STEP = step("set", "ff", raises={}, ensures=[
                                                   f"{P}['unset_state'] == old({P}['set_state']))"),
     ("normal_only_when_forced", f"implies(flow == 'normal', not {skip('set')} and ({S_FORCE_OVER} or {S_FORCE_NEW}))"),
     ("nothing_is_fetched", f"{same('get')} and {same('get_root')}"),
-    ("request_parameters_untouched", only_written(["set_mode", "unset_state"])),
+    ("request_parameters_untouched", request_kept("set")),
 ], exc_ensures=[
     ("abort_or_invalid_alters_nothing", f"implies(exc in ['TestAbortError', 'TestError'], {NO_CHANGE})"),
     ("abort_only_by_policy", f"implies(exc == 'TestAbortError', not {skip('set')} and {S_ABORT})"),
